@@ -1,9 +1,316 @@
 import Oas3Model.Model.Path
 import Oas3Model.Sem.Url
+import Oas3Model.Model.Client
+import Oas3Model.Proofs.Path
+/-
+Property C03 — URL path construction.
+
+* the path-template tokenizer accepts exactly the well-formed templates and loses no character;
+* the `format!` template of a mixed segment has one `{}` per argument and no other brace;
+* the axum route pattern is the template with each parameter renamed to its Rust field;
+* `PathSegmentsMut::push` appends exactly one percent-encoded segment that decodes to the value
+  (outside the recorded `.`/`..`/TAB-LF-CR defects, reproduced as `cex_*`);
+* `collect_parameters`: operation-level parameters override path-level ones with the same key.
+-/
 namespace Oas3.Props.C03
-open Oas3.Path Oas3.Url
+open Oas3.Path Oas3.Url Oas3.Client
+
+/-! ### Definitions used in the statements -/
+
+/-- the text of a part list: literals verbatim, parameters as `{name}` -/
+def render (ps : List Part) : List Char :=
+  (ps.map fun p => match p with
+    | .lit l => l
+    | .param n => '{' :: n ++ ['}']).flatten
+
+/-- a well-formed part: non-empty, brace-free literal or parameter name -/
+def PartWf (p : Part) : Prop :=
+  match p with
+  | .lit l => l ≠ [] ∧ '{' ∉ l ∧ '}' ∉ l
+  | .param n => n ≠ [] ∧ '{' ∉ n ∧ '}' ∉ n
+
+/-- no two consecutive literal parts -/
+def NoAdjacentLits (ps : List Part) : Prop :=
+  ∀ pre l1 l2 post, ps ≠ pre ++ .lit l1 :: .lit l2 :: post
+
+/-- the axum route pattern of a part list: each parameter renamed to its Rust field -/
+def axumRender (decl : List (List Char × List Char)) (ps : List Part) : List Char :=
+  (ps.map fun p => match p with
+    | .lit l => l
+    | .param n => '{' :: fieldOf decl n ++ ['}']).flatten
+
+private theorem render_eq (ps : List Part) : render ps = renderR ps := by
+  induction ps with
+  | nil => rfl
+  | cons p r ih =>
+    cases p <;> simp_all [render, renderR]
+
+private theorem axumRender_eq (decl : List (List Char × List Char)) (ps : List Part) :
+    axumRender decl ps = axumR decl ps := by
+  induction ps with
+  | nil => rfl
+  | cons p r ih =>
+    cases p <;> simp_all [axumRender, axumR]
+
+private theorem partWf_iff (p : Part) : PartWf p ↔ WfPart p := by
+  cases p <;> exact Iff.rfl
+
+/-! ### 1–3 tokenizer -/
 
 /-- the empty template segment is a literal -/
 theorem tokenize_nil : tokenize [] = .ok [] := by rfl
+
+/-- an accepted template segment is exactly the concatenation of its parts -/
+theorem tokenize_roundtrip (s : List Char) (ps : List Part) :
+    tokenize s = .ok ps → render ps = s := by
+  intro h; rw [render_eq]; exact tokenize_renderR h
+
+/-- literals hold no brace and are non-empty; parameter names are non-empty and brace-free -/
+theorem tokenize_parts_wf (s : List Char) (ps : List Part) :
+    tokenize s = .ok ps → ∀ p ∈ ps,
+      (match p with
+       | .lit l => l ≠ [] ∧ '{' ∉ l ∧ '}' ∉ l
+       | .param n => n ≠ [] ∧ '{' ∉ n ∧ '}' ∉ n) := by
+  intro h p hp
+  exact (partWf_iff p).2 ((tokenize_wf h).1 p hp)
+
+/-- literal text is never split in two parts -/
+theorem tokenize_no_adjacent_lits (s : List Char) (ps : List Part) :
+    tokenize s = .ok ps → NoAdjacentLits ps := by
+  intro h; exact (noAdj_iff ps).1 (tokenize_wf h).2
+
+/-- a segment of two or more parts has a parameter (it is genuinely "mixed") -/
+theorem tokenize_two_parts_has_param (s : List Char) (ps : List Part) :
+    tokenize s = .ok ps → 2 ≤ ps.length → ∃ n, Part.param n ∈ ps := by
+  intro h hl
+  have na := tokenize_no_adjacent_lits s ps h
+  match ps, hl, na with
+  | .param n :: _, _, _ => exact ⟨n, List.mem_cons_self⟩
+  | .lit _ :: .param n :: _, _, _ => exact ⟨n, List.mem_cons_of_mem _ List.mem_cons_self⟩
+  | .lit l1 :: .lit l2 :: r, _, na => exact absurd rfl (na [] l1 l2 r)
+
+/-- the tokenizer rejects only genuinely malformed templates: every well-formed part list is
+accepted and recovered -/
+theorem tokenize_complete (ps : List Part) (wf : ∀ p ∈ ps, PartWf p) (na : NoAdjacentLits ps) :
+    tokenize (render ps) = .ok ps := by
+  rw [render_eq]
+  exact tokenize_renderR_complete (fun p hp => (partWf_iff p).1 (wf p hp)) ((noAdj_iff ps).2 na)
+
+/-- characterisation of acceptance -/
+theorem tokenize_ok_iff (s : List Char) (ps : List Part) :
+    tokenize s = .ok ps ↔ (render ps = s ∧ (∀ p ∈ ps, PartWf p) ∧ NoAdjacentLits ps) := by
+  constructor
+  · intro h
+    exact ⟨tokenize_roundtrip s ps h, tokenize_parts_wf s ps h, tokenize_no_adjacent_lits s ps h⟩
+  · rintro ⟨h1, h2, h3⟩
+    rw [← h1]; exact tokenize_complete ps h2 h3
+
+/-- hence the parse of a segment is unique -/
+theorem render_injective_on_wf (ps qs : List Part)
+    (wp : ∀ p ∈ ps, PartWf p) (np : NoAdjacentLits ps)
+    (wq : ∀ p ∈ qs, PartWf p) (nq : NoAdjacentLits qs) (h : render ps = render qs) : ps = qs := by
+  have a := tokenize_complete ps wp np
+  have b := tokenize_complete qs wq nq
+  rw [h, b] at a
+  cases a; rfl
+
+/-! ### 4–5 format template and axum pattern -/
+
+/-- the `format!` template of a mixed segment has exactly one `{}` per argument and no other
+brace: spec text can never inject a format directive -/
+theorem format_safe (decl : List (List Char × List Char)) (s : List Char) (ps : List Part) :
+    tokenize s = .ok ps →
+      formatSafe (formatOf ps) = true ∧
+      countPlaceholders (formatOf ps) = (paramsOf decl ps).length := by
+  intro h; exact formatOf_safe decl ps (tokenize_wf h).1
+
+/-- filling the format template with the field names gives the template with each parameter
+renamed to its Rust field. No side condition on the field names is needed: `fillFormat` never
+rescans an inserted name. -/
+theorem fill_format_render (decl : List (List Char × List Char)) (s : List Char) (ps : List Part) :
+    tokenize s = .ok ps →
+      fillFormat (formatOf ps) (paramsOf decl ps) =
+        (ps.map (fun p => match p with
+          | .lit l => l
+          | .param n => '{' :: fieldOf decl n ++ ['}'])).flatten := by
+  intro h
+  rw [fillFormat_formatOf decl ps (tokenize_wf h).1]
+  exact (axumRender_eq decl ps).symm
+
+/-- a segment of two or more parts is always `Mixed`; the `Literal(seg)` fallback of
+`build_mixed` is dead code -/
+theorem segment_mixed_of_two_parts (decl : List (List Char × List Char)) (s : List Char)
+    (ps : List Part) : tokenize s = .ok ps → 2 ≤ ps.length →
+      segmentOfParts decl s ps = .mixed (formatOf ps) (paramsOf decl ps) := by
+  intro h hl
+  have na := (tokenize_wf h).2
+  match ps, hl, na with
+  | a :: b :: r, _, na => exact segmentOfParts_two decl s na
+
+/-- the axum pattern of ANY accepted segment (literal, single parameter or mixed) -/
+theorem axum_segment_render (decl : List (List Char × List Char)) (s : List Char) (seg : Segment) :
+    parseSegment decl s = .ok seg →
+      ∃ ps, tokenize s = .ok ps ∧ axumSegment seg = axumRender decl ps := by
+  intro h
+  unfold parseSegment at h
+  split at h
+  · rename_i ps hp
+    cases h
+    refine ⟨ps, hp, ?_⟩
+    rw [axumRender_eq]
+    exact axumSegment_segmentOfParts decl s ps (tokenize_wf hp).1 (tokenize_wf hp).2
+  · cases h
+
+/-! ### 6–8 URL layer -/
+
+theorem hexVal_hexDigit (n : Nat) (h : n < 16) : hexVal (hexDigit n) = some n :=
+  Oas3.Url.hexVal_hexDigit n h
+
+/-- decoding consumes exactly the encoding of one byte -/
+theorem pct_decode_encodeByte (b : UInt8) (r : List Char) :
+    pctDecode (encodeByte b ++ r) = b :: pctDecode r :=
+  pctDecode_encodeByte b r
+
+/-- percent-decoding the encoded segment returns the original bytes, for ALL byte strings -/
+theorem pct_roundtrip (bs : List UInt8) : pctDecode (encodeBytes bs) = bs :=
+  pctDecode_encodeBytes bs
+
+/-- the encoding is injective: two values never collide in the URL -/
+theorem encode_injective (a b : List UInt8) : encodeBytes a = encodeBytes b → a = b :=
+  encodeBytes_injective
+
+/-- the pushed segment can never add a path separator, a query or a fragment, and is ASCII -/
+theorem encode_no_separators (bs : List UInt8) :
+    ∀ c ∈ encodeBytes bs, (c ≠ '/' ∧ c ≠ '?' ∧ c ≠ '#' ∧ c ≠ '\\') ∧ c.toNat < 128 := by
+  intro c hc
+  obtain ⟨a, b, c', d, e⟩ := encodeBytes_chars bs c hc
+  exact ⟨⟨a, b, c', d⟩, e⟩
+
+/-- `.` is never escaped, so only the values `.` / `..` encode to `.` / `..` -/
+theorem encode_dot (seg : List UInt8) :
+    (encodeBytes seg = ['.'] → seg = [0x2E]) ∧ (encodeBytes seg = ['.', '.'] → seg = [0x2E, 0x2E]) :=
+  ⟨encodeBytes_eq_dot, encodeBytes_eq_dotdot⟩
+
+/-- outside the recorded defects, `push` appends exactly one encoded segment -/
+theorem push_appends (path : List Char) (seg : List UInt8)
+    (h1 : seg ≠ [0x2E]) (h2 : seg ≠ [0x2E, 0x2E]) (h3 : ∀ b ∈ seg, isTabNl b = false)
+    (_h4 : encodeBytes seg ≠ ['.'] ∧ encodeBytes seg ≠ ['.', '.']) :
+    push path seg = (if path.length > 1 then path ++ ['/'] else path) ++ encodeBytes seg :=
+  Oas3.Url.push_appends path seg h1 h2 h3
+
+/-- `h4` follows from `h1`, `h2` -/
+theorem push_appends' (path : List Char) (seg : List UInt8)
+    (h1 : seg ≠ [0x2E]) (h2 : seg ≠ [0x2E, 0x2E]) (h3 : ∀ b ∈ seg, isTabNl b = false) :
+    push path seg = (if path.length > 1 then path ++ ['/'] else path) ++ encodeBytes seg :=
+  Oas3.Url.push_appends path seg h1 h2 h3
+
+/-- … and what is appended decodes to the value -/
+theorem push_decode (path : List Char) (seg : List UInt8)
+    (h1 : seg ≠ [0x2E]) (h2 : seg ≠ [0x2E, 0x2E]) (h3 : ∀ b ∈ seg, isTabNl b = false) :
+    ∃ enc, push path seg = (if path.length > 1 then path ++ ['/'] else path) ++ enc ∧
+      pctDecode enc = seg ∧ (∀ c ∈ enc, c ≠ '/' ∧ c ≠ '?' ∧ c ≠ '#') :=
+  ⟨encodeBytes seg, push_appends' path seg h1 h2 h3, pct_roundtrip seg,
+    fun c hc => by
+      obtain ⟨⟨a, b, c', _⟩, _⟩ := encode_no_separators seg c hc
+      exact ⟨a, b, c'⟩⟩
+
+/-- the whole path: pushing values that are non-empty, not `.`/`..` and TAB/LF/CR-free onto the
+root gives exactly `/enc(v₁)/enc(v₂)/…`; every `enc(vᵢ)` is separator-free (`encode_no_separators`)
+and decodes to `vᵢ` (`pct_roundtrip`) -/
+theorem push_all (segs : List (List UInt8))
+    (hg : ∀ s ∈ segs, s ≠ [] ∧ s ≠ [0x2E] ∧ s ≠ [0x2E, 0x2E] ∧ ∀ b ∈ s, isTabNl b = false) :
+    segs.foldl push ['/'] =
+      if segs = [] then ['/'] else segs.flatMap (fun s => '/' :: encodeBytes s) :=
+  foldl_push_root segs hg
+
+/-! ### 9 parameter merge -/
+
+/-- an operation-level parameter that is not overridden later is kept -/
+theorem collectParams_op_wins (pre post : List Param) (p : Param) (hp : p.pathLevel = false)
+    (hlast : ∀ q ∈ post, q.pathLevel = false → (q.loc, q.name) ≠ (p.loc, p.name)) :
+    p ∈ collectParams (pre ++ p :: post) := by
+  rw [collectParams_eq, mem_foldl_step]
+  right
+  refine ⟨pre.filter (!·.pathLevel), post.filter (!·.pathLevel), ?_, ?_⟩
+  · simp [List.filter_append, hp]
+  · intro q hq
+    have := List.mem_filter.1 hq
+    exact hlast q this.1 (by simpa using this.2)
+
+/-- a path-level parameter survives iff no operation-level parameter has its (location, name) -/
+theorem collectParams_path_iff (ps : List Param) (q : Param) (hq : q.pathLevel = true) :
+    q ∈ collectParams ps ↔
+      q ∈ ps ∧ ∀ p ∈ ps, p.pathLevel = false → (p.loc, p.name) ≠ (q.loc, q.name) := by
+  rw [collectParams_eq, mem_foldl_step]
+  constructor
+  · rintro (⟨h1, h2⟩ | ⟨pre, post, h1, _⟩)
+    · refine ⟨(List.mem_filter.1 h1).1, ?_⟩
+      intro p hp hpl
+      exact h2 p (List.mem_filter.2 ⟨hp, by simp [hpl]⟩)
+    · have : q ∈ ps.filter (!·.pathLevel) := by rw [h1]; simp
+      have := (List.mem_filter.1 this).2
+      simp [hq] at this
+  · rintro ⟨h1, h2⟩
+    left
+    refine ⟨List.mem_filter.2 ⟨h1, hq⟩, ?_⟩
+    intro p hp
+    have := List.mem_filter.1 hp
+    exact h2 p this.1 (by simpa using this.2)
+
+/-- the merge invents nothing -/
+theorem collectParams_subset (ps : List Param) (q : Param) : q ∈ collectParams ps → q ∈ ps := by
+  rw [collectParams_eq, mem_foldl_step]
+  rintro (⟨h1, _⟩ | ⟨pre, post, h1, _⟩)
+  · exact (List.mem_filter.1 h1).1
+  · have : q ∈ ps.filter (!·.pathLevel) := by rw [h1]; simp
+    exact (List.mem_filter.1 this).1
+
+/-- keys of the merged list are pairwise distinct as soon as the path-level ones are
+(duplicates among operation-level parameters are resolved: the last one wins) -/
+theorem collectParams_keys_nodup_of_path (ps : List Param)
+    (h : ((ps.filter (·.pathLevel)).map (fun p => (p.loc, p.name))).Nodup) :
+    ((collectParams ps).map (fun p => (p.loc, p.name))).Nodup :=
+  nodup_keys_foldl _ _ h
+
+theorem collectParams_keys_nodup (ps : List Param)
+    (h : ((ps.filter (·.pathLevel)).map (fun p => (p.loc, p.name))).Nodup)
+    (_h' : ((ps.filter (!·.pathLevel)).map (fun p => (p.loc, p.name))).Nodup) :
+    ((collectParams ps).map (fun p => (p.loc, p.name))).Nodup :=
+  collectParams_keys_nodup_of_path ps h
+
+/-! ### 10 recorded defects of the real code, reproduced by the model -/
+
+/-- the value `..` is silently dropped -/
+theorem cex_dot : push "/pre".toList [0x2E, 0x2E] = "/pre".toList := by decide +kernel
+/-- the value `.` is silently dropped -/
+theorem cex_dot1 : push "/pre".toList [0x2E] = "/pre".toList := by decide +kernel
+/-- TAB is stripped from the value -/
+theorem cex_tab : push ['/'] [97, 9, 98] = "/ab".toList := by decide +kernel
+/-- an empty first value leaves no trace: `/` + "" + "a" gives `/a`, not `//a` -/
+theorem cex_empty_first : push (push ['/'] []) [97] = "/a".toList := by decide +kernel
+/-- `.` TAB `.` removes the PREVIOUS segment -/
+theorem cex_tab_dotdot : push "/pre/x".toList [0x2E, 9, 0x2E] = "/pre".toList := by decide +kernel
+
+/-! ### 11 non-vacuity -/
+
+example : tokenize "x-{y}.{z}".toList
+    = .ok [.lit "x-".toList, .param "y".toList, .lit ".".toList, .param "z".toList] := by rfl
+example : formatOf [.lit "x-".toList, .param "y".toList, .lit ".".toList, .param "z".toList]
+    = "x-{}.{}".toList := by decide +kernel
+example : parseSegment [("y".toList, "y_".toList)] "x-{y}.{z}".toList
+    = .ok (.mixed "x-{}.{}".toList ["y_".toList, "z".toList]) := by rfl
+example : axumSegment (.mixed "x-{}.{}".toList ["y_".toList, "z".toList]) = "x-{y_}.{z}".toList := by
+  decide +kernel
+example : tokenize "a{b".toList = .error .unclosed := by rfl
+example : tokenize "a}b".toList = .error .unmatchedClose := by rfl
+example : tokenize "{}".toList = .error .emptyParam := by rfl
+example : tokenize "{a{b}}".toList = .error .nested := by rfl
+/-- "é /" = C3 A9 20 2F -/
+example : push "/v1".toList [0xC3, 0xA9, 0x20, 0x2F] = "/v1/%C3%A9%20%2F".toList := by
+  decide +kernel
+example : pctDecode "%C3%A9%20%2F".toList = [0xC3, 0xA9, 0x20, 0x2F] := by decide +kernel
+example : collectParams [⟨"id".toList, .path, true⟩, ⟨"q".toList, .query, true⟩,
+      ⟨"id".toList, .path, false⟩]
+    = [⟨"q".toList, .query, true⟩, ⟨"id".toList, .path, false⟩] := by decide +kernel
 
 end Oas3.Props.C03
